@@ -52,6 +52,27 @@ def run(ctx):
         cfgs.append((Cfg(tuple(str(v) for v in chunk), w, 300, False), exp))
     units.append((SRC_MISC, [c for c, _ in cfgs]))
     expect.append([e for _, e in cfgs])
+    # write(bool) of every way a bool can be produced (casts of ints/bytes/lengths, variables, elements, operators), write(byte) of casts
+    SRC_BOOL = ('bool gb = false;\nbool nz(int v) { return v is bool; }\nempty @is_you(const int[] xs) {\n  bool[] ba = [false, true, false];\n  for (int i = 0; i < xs.length; i += 1) {\n'
+                '    int x = xs[i]; byte b = x is byte; bool t = x is bool; gb = x is bool; ba[1] = x is bool;\n'
+                '    write(x is bool); write(\' \'); writeln(x is bool); write(t); write(gb); write(ba[1]); write(nz(x)); write(b is bool); write((x is byte) is bool); write(\' \');\n'
+                '    write((x + x) is bool); write(not (x is bool)); write((x is bool) and true); write((x is bool) or false); write((x * 256) is bool); write(\' \');\n'
+                '    write((x is bool) is byte); write(b); write((x + 1) is byte); write((((x is bool) is int) + 48) is byte); writeln(((b is int) + 256) is byte);\n  }\n}\n')
+    cfgs = []
+    for w in (2, 3, 4):
+        chunk = [0, 1, -1, 2, 255, 256, 512, 768, -256, 257, 65, 300, -32768 if w == 2 else -(1 << (8 * w - 1)), 32512 if w == 2 else (1 << (8 * w - 2))]
+        exp = b''
+        tf = lambda v: b'true' if v else b'false'
+        for v in chunk:
+            t = v != 0
+            bb = v & 255
+            M = 1 << (8 * w)
+            exp += tf(t) + b' ' + tf(t) + b'\n' + tf(t) * 4 + tf(bb != 0) * 2 + b' '
+            exp += tf((2 * v) % M != 0) + tf(not t) + tf(t) + tf(t) + tf((v * 256) % M != 0) + b' '
+            exp += bytes([int(t), bb, (v + 1) & 255, 48 + int(t), bb]) + b'\n'
+        cfgs.append((Cfg(tuple(str(v) for v in chunk), w, 300, False), exp))
+    units.append((SRC_BOOL, [c for c, _ in cfgs]))
+    expect.append([e for _, e in cfgs])
     # strings and byte arrays of every length 0..64: const, mutable, string-converted; caller state read back
     lens = list(range(0, 65)) if not q else [0, 1, 2, 3, 7, 8, 9, 31, 32, 33, 63, 64] + [rng.randrange(65) for _ in range(8)]
     for n in lens:
